@@ -26,3 +26,46 @@ UNITS.append(U(name='htp_tx_process_request_headers', props=['C11', 'C01'], kind
                    'hosts equal, ports): every trigger raises its indicator and fixes the framing; indicators only grow; no indicator without trigger; '
                    'coding IDENTITY => content length >= 0; coding never left UNKNOWN',
                assumes=A1))
+
+# ---- 3. token search in Transfer-Encoding ------------------------------------------------------------------
+UNITS.append(U(name='htp_header_has_token', props=['C11', 'C01'], kind='contract', src=['htp_util.c'], enforce='htp_header_has_token',
+               contracts_inc=INC,
+               loops={'htp_util.c': {'htp_header_has_token': {'count': 1, 0: dict(
+                   assigns='i, state, v_off',
+                   inv=['i <= hvlen', 'state >= 0 && state <= 2', 'v_off <= 7 && v_off <= i',
+                        '(state == 0) ==> (v_off < 7)', '(state == 1) ==> (v_off == 0)', '(state == 2) ==> (v_off == 7)'],
+                   dec='hvlen - i')}}},
+               harness='void HARNESS(void) { const unsigned char *v; size_t n; const unsigned char *t; htp_header_has_token(v, n, t); CANARY(); }',
+               defs={'quick': dict({'VCAP': 1024}, **XD), 'thorough': {'VCAP': 65536}}, min_obl=20,
+               sub='token search: memory safety for every value length (symbolic, <= VCAP), termination, answer is HTP_OK or HTP_ERROR, a hit needs >= 7 bytes; never writes',
+               assumes=['needle is the literal "chunked" (the only needle any call site passes)', 'value length <= VCAP']))
+UNITS.append(U(name='ref_header_has_token', props=['C11'], kind='bounded', src=['htp_util.c'], replay='vin', contracts_inc=['token_ref.h'],
+               harness='''typedef struct { unsigned char a[N]; size_t la; unsigned char pick; } vin_t;
+void HARNESS(void) { VIN(vin_t);
+  VASSUME(in.la <= N);
+  const unsigned char *needle = (const unsigned char *) (in.pick & 1 ? "chunked" : "te");
+  VASSERT((htp_header_has_token(in.a, in.la, needle) == HTP_OK) == (ref_header_has_token(in.a, in.la, needle) == 1),
+          "token search equals the reference: comma separated list, optional surrounding white space, ASCII case-insensitive");
+  VASSERT(htp_header_has_token(in.a, in.la, needle) == HTP_OK || htp_header_has_token(in.a, in.la, needle) == HTP_ERROR, "answer is OK or ERROR");
+  CANARY(); }''',
+               defs={'quick': dict({'N': 11}, **XD), 'thorough': {'N': 16}},
+               flags_add=['--unwind', '19', '--unwinding-assertions'], timeout=(300, 1200),
+               bound='all header values of length <= N bytes (N = 11 quick, 16 thorough); needles "chunked" and the 2-byte "te" (so that several complete elements fit into N bytes)',
+               sub='"regardless of letter case and surrounding white space": the real token search agrees with an independent reference on every value up to N bytes',
+               assumes=['C locale (tolower is ASCII case folding)']))
+
+# ---- 2. producer of HTP_FIELD_REPEATED: per-header bookkeeping --------------------------------------------------
+R2 = ['htp_parse_request_header_generic', 'htp_table_get', 'htp_table_add', 'htp_log', 'bstr_cmp_c_nocase', 'htp_parse_content_length',
+      'bstr_expand', 'bstr_add_mem_noex', 'bstr_add_noex']
+UNITS.append(U(name='htp_process_request_header_generic', props=['C11', 'C10', 'C18', 'C01'], kind='contract', src=['htp_request_generic.c'],
+               enforce='htp_process_request_header_generic',
+               replace=['%s/contract_c11_%s' % (f, f) for f in R2] + ['bstr_free/contract_c11log_bstr_free'], contracts_inc=INC,
+               harness='void HARNESS(void) { htp_connp_t *c; unsigned char *d; size_t n; htp_process_request_header_generic(c, d, n); CANARY(); }',
+               defs={'quick': dict({'C11_VALCAP': 32}, **XD)}, min_obl=60,
+               sub='a second header with the same name sets HTP_FIELD_REPEATED on the STORED header on every path; repetition counter <= 64 and +1 only from the third occurrence; '
+                   'beyond the cap the newcomer is dropped; Content-Length is never merged; other names: capacity len+2+n, ", " separator, then the new value, len\' = len+2+n; '
+                   'parsed name/value released exactly once unless stored (every allocation failure included)',
+               assumes=['line parser, table lookup/insert, case-insensitive compare, bstr_expand / bstr_add_* and bstr_free replaced by call-logging stubs with arbitrary answers '
+                        '(NULL / HTP_ERROR included); the byte content of the merged value is the bounded unit ref_header_merge on the real bstr code',
+                        'values are inline bstrs of capacity C11_VALCAP; repetition counter <= 64 on entry (0 in a new transaction, moved only here)',
+                        'release of the header structure itself (free(h)) is checked by CBMC built-in double-free check; its leak freedom is in ref_header_merge (--memory-leak-check)']))
